@@ -1323,7 +1323,18 @@ impl<'l> CelCompiler<'l> {
                             let mut tok = StringTokenizer::with_input(&e);
                             let mut comp = CelCompiler::with_tokenizer(&mut tok);
 
-                            let (e, _) = comp.parse_expression()?;
+                            // the embedded expression is compiled on its own text: an error in it
+                            // is reported at the f-string, which is where it is in this source
+                            let (e, _) = comp.parse_expression().map_err(|err| match err {
+                                CelError::Syntax(se) => {
+                                    let mut at = SyntaxError::from_location(loc.start());
+                                    if let Some(msg) = se.message() {
+                                        at = at.with_message(msg.to_string());
+                                    }
+                                    CelError::Syntax(at)
+                                }
+                                other => other,
+                            })?;
                             details.union_from(e.details().clone());
 
                             bytecode.push(
